@@ -163,3 +163,49 @@ Proof.
   destruct (line_cells d w l (H l Hin)) as (_ & _ & Hne). intros ->. apply Hne. reflexivity.
 Qed.
 
+
+(* ---- what a row gives for a field name ---- *)
+From PV Require Import Model.Iterator Proofs.IteratorProofs.
+
+Lemma beq_false_of_neq a b : a <> b -> beq a b = false.
+Proof. intros H. unfold beq. destruct (seg_eqb a b) eqn:E; [apply seg_eqb_true in E; contradiction|reflexivity]. Qed.
+
+Lemma beq_refl a : beq a a = true.
+Proof. unfold beq. apply seg_eqb_refl'. Qed.
+
+Lemma row_set_get acc k v k' :
+  row_get (row_set acc k v) k' = if beq k k' then Some v else row_get acc k'.
+Proof.
+  unfold row_get. induction acc as [|[a b] r IH]; cbn [row_set assoc]; [reflexivity|].
+  destruct (beq a k) eqn:E.
+  - unfold beq in E. apply seg_eqb_true in E. subst a. cbn [assoc]. destruct (beq k k'); reflexivity.
+  - cbn [assoc]. destruct (beq a k') eqn:E2; [|exact IH].
+    unfold beq in E2. apply seg_eqb_true in E2. subst a.
+    destruct (beq k k') eqn:E3; [|reflexivity].
+    unfold beq in E3. apply seg_eqb_true in E3. subst k'. rewrite beq_refl in E. discriminate.
+Qed.
+
+Lemma mk_row_other fields : forall i rc acc k,
+  Forall (fun f => f <> []) fields -> ~ In k fields ->
+  row_get (mk_row fields i rc acc) k = row_get acc k.
+Proof.
+  induction fields as [|f fs IH]; intros i rc acc k Hne Hin; [reflexivity|].
+  inversion Hne as [|? ? Hf Hfs]; subst. cbn [mk_row].
+  destruct f as [|c f']; [congruence|].
+  rewrite IH by (auto; intros X; apply Hin; right; exact X).
+  rewrite row_set_get, beq_false_of_neq; [reflexivity|]. intros E. apply Hin. left. exact E.
+Qed.
+
+(* distinct non-empty names: the j-th name maps to the j-th cell of the line ("" past its end) *)
+Theorem mk_row_nth fields : forall i rc acc j k,
+  Forall (fun f => f <> []) fields -> NoDup fields -> nth_error fields j = Some k ->
+  row_get (mk_row fields i rc acc) k = Some (nth j rc []).
+Proof.
+  induction fields as [|f fs IH]; intros i rc acc j k Hne Hnd Hj; [destruct j; discriminate|].
+  inversion Hne as [|? ? Hf Hfs]; subst. inversion Hnd as [|? ? Hnotin Hnd']; subst.
+  cbn [mk_row]. destruct f as [|c f']; [congruence|].
+  destruct j as [|j]; cbn [nth_error] in Hj.
+  - injection Hj as <-. rewrite mk_row_other by assumption. rewrite row_set_get, beq_refl.
+    destruct rc; reflexivity.
+  - rewrite (IH _ _ _ j k Hfs Hnd' Hj). destruct rc; [destruct j; reflexivity|reflexivity].
+Qed.
